@@ -19,7 +19,7 @@ BAD_REPLIES = {
 
 def behaviour(rng, k):
     """-> (fakegen name, reply bytes or None, model behaviour token, files this generator means to write [(path, content)])"""
-    kind = rng.choice(["ok0", "okfiles", "okfiles", "missing", "notexec", "exit1", "exit255", "sigkill", "sigsegv", "stderr", "noread", "empty", "replyexit1", "truncated", "truncated", "bad"])
+    kind = rng.choice(["ok0", "okfiles", "okfiles", "missing", "notexec", "exit1", "exit255", "sigkill", "sigsegv", "stderr", "noread", "empty", "replyexit1", "replysigkill", "truncated", "truncated", "truncated-after-files", "bad", "bad-after-files"])
     files = [("g%d_%d.txt" % (k, j), "content of %d/%d\n" % (k, j) * rng.choice([1, 3])) for j in range(rng.choice([1, 2, 3]))]
     if rng.random() < 0.2:
         files.append(("sub%d/nested.txt" % k, "needs a directory that does not exist"))
@@ -40,6 +40,17 @@ def behaviour(rng, k):
         return "gen-%s-%d" % (kind, k), None, "run:1:0:0:-", kind
     if kind == "replyexit1":
         return "gen-replyexit1-%d" % k, valid, "run:1:0:1:" + valid.hex(), kind
+    if kind == "replysigkill":
+        return "gen-replysigkill-%d" % k, valid, "run:1:0:sig:" + valid.hex(), kind
+    if kind == "truncated-after-files":
+        # every file is complete, the diagnostics are missing or cut
+        fl = dc.enc_reply(files, [])[:-1]
+        cut = fl + rng.choice([b"", b"\x04", b"\x04\x00", b"\x04\x00\x01"])
+        return "gen-reply-%d" % k, cut, "run:1:0:0:" + cut.hex(), kind
+    if kind == "bad-after-files":
+        fl = dc.enc_reply(files, [])[:-1]
+        bad = fl + rng.choice([b"\x04\x00\x09" + dc.vstr("m") + b"\xfc", b"\x04\x05\x00" + dc.vstr("m") + b"\xfc", b"\x04\x00\x01\x08\xff\xfe\xfc", b"\xff\xff\xff\xff\xff\xff\xff\xff"])
+        return "gen-reply-%d" % k, bad, "run:1:0:0:" + bad.hex(), kind
     if kind == "truncated":
         cut = valid[:rng.randrange(0, len(valid))]
         return "gen-reply-%d" % k, cut, "run:1:0:0:" + (cut.hex() or "-"), kind
@@ -118,7 +129,7 @@ def run(ck):
     o = dc.run_all(rlines)
     m = core.run_model("main", mlines)
     ck.stream("generators", description="the real slicec binary with 1..3 fake generators, each drawn from the behaviour catalogue {ok with 0..n files (also into a missing sub-directory), missing executable, not executable, "
-              "exit 1/255, killed by SIGKILL/SIGSEGV, stderr output with exit 0, exits without reading stdin, empty reply, valid reply but exit 1, reply truncated at a random byte (every byte in the thorough tier), "
+              "exit 1/255, killed by SIGKILL/SIGSEGV (also after writing a complete reply), stderr output with exit 0, exits without reading stdin, empty reply, valid reply but exit 1, reply truncated at a random byte or right after the file sequence, complete files followed by undecodable diagnostics, "
               "8 undecodable replies (invalid UTF-8/bool/level, huge sizes, missing tag end, garbage)} x output directory {absent, given, missing} x pre-existing files {identical, different}. "
               "Compared with the driver model: every startable generator started exactly once with the same request, exit status, one error naming each failing generator, exactly the model's files written below the "
               "output directory with the reply's contents, identical files left untouched, nothing written for failing generators.")
